@@ -498,4 +498,16 @@ func NewParser returns (p)
   props C18 C08
   ensures @unbuffered [C18] chancap(p.Nodes) == 0 && chancap(p.Errors) == 0 && chancap(p.Done) == 0
   ensures @config p.config == c
+
+// The messages (C09): an error QUOTES the malformed line - the line itself between double quotes, not an escaped
+// rendering of it - and names its 1-based number in decimal.
+func (*ErrorBadSyntax).Error returns (r)
+  props C09 C08
+  requires e != nil
+  ensures @quotes-line-and-number [C09] r == "bad syntax on line " + Itoa(e.LineNumber) + ", \"" + e.Line + "\"."
+
+func (*ErrorConversion).Error returns (r)
+  props C09 C08
+  requires e != nil
+  ensures @quotes-line-and-number [C09] r == "error converting \"" + e.Text + "\" to float on line " + Itoa(e.LineNumber) + " \"" + e.Line + "\"."
 @*/
